@@ -465,6 +465,7 @@ def correspond(ctx):
     stream_query_parse(ctx, programs)
     stream_smarts(ctx, programs)
     stream_skeleton(ctx, programs)
+    stream_full_syntax(ctx, programs)
     stream_mapping(ctx, programs)
     ctx.cov['programs'] = len(programs)
     ctx.cov['program_names'] = sorted(programs)
@@ -862,6 +863,76 @@ def stream_smarts(ctx, programs):
 
 
 
+
+FULL_SYMBOLS = ['[C]', '[N]', '[O;D1]', '[C:1]', '[C;M]', '[C@]', 'C', 'N', 'O', 'Cl', 'Br', 'c', 'B', '(', ')', '1', '2', '%12', '%1', '0',
+                '-', '=', '#', ':', '~', '-,=', '!-', '!=', ';@', ';!@', '/', '\\', '.', ',', '!', ';', '%', 'l', 'r', 'F', 'I', 'S', 'P', 'n', 's']
+
+
+def full_syntax_strings(ctx):
+    """symbol sequences over bracket atoms, plain atoms, branches, closure numbers and bond tokens (valid and malformed)"""
+    rng = ctx.rng
+    syms = FULL_SYMBOLS
+    out = []
+    for n in (1, 2):
+        out += [''.join(t) for t in itertools.product(syms, repeat=n)]
+    core_syms = ['[C]', '[N]', 'C', 'O', '(', ')', '1', '2', '-', '=', '-,=', '!-', ';@', '/', '\\', '.', '%12']
+    if ctx.quick:
+        out += [''.join(rng.choice(core_syms) for _ in range(rng.randint(3, 7))) for _ in range(6000)]
+        out += [''.join(rng.choice(syms) for _ in range(rng.randint(3, 6))) for _ in range(3000)]
+    else:
+        out += [''.join(t) for t in itertools.product(core_syms, repeat=3)]
+        out += [''.join(t) for t in itertools.product(core_syms[:12], repeat=4)]
+        out += [''.join(rng.choice(core_syms) for _ in range(rng.randint(5, 9))) for _ in range(60000)]
+        out += [''.join(rng.choice(syms) for _ in range(rng.randint(3, 7))) for _ in range(30000)]
+    # structured valid ones: rings and branches with query bonds on the closures
+    atoms = ['[C]', '[N]', 'C', 'N', '[C;D2]', '[A]', 'O', 'Cl']
+    bonds = ['', '-', '=', '-,=', '!-', '-;@', '=;!@', '/', '\\', '~', ':']
+    for _ in range(1500 if ctx.quick else 15000):
+        k = rng.randint(3, 7)
+        parts, open_ = [], []
+        for i in range(k):
+            t = (rng.choice(bonds) if i else '') + rng.choice(atoms)
+            r = rng.random()
+            if r < 0.2 and len(open_) < 2:
+                num = rng.choice(['1', '2', '%10'])
+                if num not in open_:
+                    open_.append(num)
+                    t += rng.choice(bonds[:6]) + num if rng.random() < 0.4 else num
+            elif r < 0.4 and open_:
+                num = open_.pop()
+                t += (rng.choice(bonds[:6]) if rng.random() < 0.4 else '') + num
+            elif r < 0.55 and i + 1 < k:
+                t += '(' + rng.choice(bonds) + rng.choice(atoms) + ')'
+            parts.append(t)
+        out.append(''.join(parts))
+    seen, res = set(), []
+    for x in out:
+        if x and x not in seen:
+            seen.add(x)
+            res.append(x)
+    return res
+
+
+def stream_full_syntax(ctx, programs):
+    programs.add('chython.smarts (full syntax: plain atoms, branches, ring closures)')
+    texts = full_syntax_strings(ctx) + [t for t in _state.get('skeleton_texts', [])]
+    lines = [line('sf', [0] + cps(t)) for t in texts]
+    resp = core.run_driver('C08', lines)
+    kind_diff = 0
+    for t, mresp in zip(texts, resp):
+        real = real_smarts_outcome(t)
+        model = model_smarts_outcome(mresp)
+        ctx.count(('sf', t))
+        ctx.dist('sf:' + (real[0] if real[0] == 'ok' else real[1] + ('<-' + real[2] if real[2] else '')))
+        if real[0] == 'err' and real[1] != 'IncorrectSmarts':
+            ctx.fail(f'C08/reject-kind/{real[1]}', f'smarts({t!r}) raises {real[1]}, not IncorrectSmarts', {'kind': 'reject', 'smarts': t})
+        if model[0] == 'other' or real[:2] != model[:2]:
+            disagree(ctx, 'smarts-full-syntax', f'{t!r}: real {str(real)[:300]} model {str(model)[:300]}', {'kind': 'reader', 'smarts': t})
+        elif real[0] == 'err' and real[2] != model[2] and not (real[2] is None and model[2] == 'IncorrectSmarts'):
+            kind_diff += 1
+    if kind_diff:
+        ctx.dist('sf:inner-kind-differs', kind_diff)
+
 def skeleton_case(text):
     """SMARTS text that is also a (Kekule, bracket-free) SMILES: the query graph must have the molecule's atoms and bonds, and the
     query must match the molecule it was written from with the identity mapping. Returns None or a description."""
@@ -918,6 +989,7 @@ def stream_skeleton(ctx, programs):
     texts = list(dict.fromkeys(texts))
     if ctx.quick:
         texts = texts[:250]
+    _state['skeleton_texts'] = texts
     for t in texts:
         try:
             bad = skeleton_case(t)
